@@ -451,6 +451,13 @@ def rule_endfill(ctx):
             raise AnalysisError("_retrieve_time_coverage: the ValueError handler does not build the end again")
         retry = bool(reraise)           # an end that is invalid whatever the month / year is still rejected
         fact_v = "try: %s except ValueError: ... %s" % (norm(e0)[:50], norm(again[0])[:80])
+        # the month arithmetic of the retry, evaluated for every start month and a step of 1 / 12 months: (year, month) of the retried end
+        # must be the calendar month `months` later (month 13 -> January of the next year, never month 0)
+        arith = _next_period_arith(hs[0], again[0])
+        if arith is not None:
+            retry = retry and not arith
+            if arith:
+                fact_v += "  [month arithmetic: %s]" % arith[0]
     ctx.ob("FileSet._retrieve_time_coverage.merge.next_period", retry, fact_v,
            "a day that does not exist in the start's month / year is tried in the next one (superior period of a month / a year), anything else is re-raised: "
            "{end_month}{end_day} = 0229 after a start in December 2019 is 29 February 2020", node=e0, func=f,
@@ -542,6 +549,65 @@ def rule_endfill(ctx):
     asg = [st for st in walk_no_nested(ps.node) if isinstance(st, ast.Assign) and norm(st.targets[0]) == "self._end_time_superior"]
     okp = okp and bool(asg) and "_get_superior_time_resolution(end_time_placeholders)" in norm(asg[0].value)
     ctx.ob("FileSet.path.setter.end_superior", okp, "%s" % fact, "computed from the end_* temporal placeholders of the path (prefix stripped)", node=asg[0] if asg else ps.node, func=ps)
+
+
+def _next_period_arith(handler, again):
+    """[description of the first wrong case] of the (year, month) the handler puts into the retried end, [] if all 24 cases are right, None if the
+    handler does not compute them with integer arithmetic this evaluator reads (e.g. a pandas DateOffset: nothing to check here)"""
+    v = again.value
+    if not (isinstance(v, ast.Call) and (dotted(v.func) or "").split(".")[-1] == "datetime" and len(v.keywords) == 1 and v.keywords[0].arg is None
+            and isinstance(v.keywords[0].value, ast.Dict)):
+        return None
+    d = v.keywords[0].value
+    over = {const_value(k_): x_ for k_, x_ in zip(d.keys, d.values) if k_ is not None}
+    if set(over) != {"year", "month"}:
+        return None
+    assigns = [s_ for s_ in walk_no_nested(handler) if isinstance(s_, ast.Assign) and s_ is not again]
+
+    class _NA(Exception):
+        pass
+
+    def ev(e, env):
+        if isinstance(e, ast.Constant) and isinstance(e.value, int):
+            return e.value
+        if isinstance(e, ast.Name):
+            if e.id in env:
+                return env[e.id]
+            raise _NA()
+        if isinstance(e, ast.Subscript) and isinstance(e.value, ast.Name) and e.value.id in ("end_args", "completed_end_args") and const_value(e.slice) in ("year", "month"):
+            return env["@" + const_value(e.slice)]
+        if isinstance(e, ast.BinOp) and isinstance(e.op, (ast.Add, ast.Sub, ast.Mult, ast.FloorDiv, ast.Mod)):
+            a, b = ev(e.left, env), ev(e.right, env)
+            return {ast.Add: a + b, ast.Sub: a - b, ast.Mult: a * b}.get(type(e.op)) if not isinstance(e.op, (ast.FloorDiv, ast.Mod)) else (a // b if isinstance(e.op, ast.FloorDiv) else a % b)
+        if isinstance(e, ast.Call) and dotted(e.func) == "divmod" and len(e.args) == 2:
+            return divmod(ev(e.args[0], env), ev(e.args[1], env))
+        if isinstance(e, ast.Tuple):
+            return tuple(ev(x, env) for x in e.elts)
+        raise _NA()
+    wrong = []
+    try:
+        for m0 in range(1, 13):
+            for step in (1, 12):
+                env = {"@year": 2019, "@month": m0, "months": step}
+                for a_ in assigns:
+                    t_ = a_.targets[0]
+                    if isinstance(t_, ast.Name) and t_.id == "months":
+                        continue        # the step: a table look-up on the superior period, decided by rollover.calendar
+                    val = ev(a_.value, env)
+                    if isinstance(t_, ast.Name):
+                        env[t_.id] = val
+                    elif isinstance(t_, ast.Tuple) and isinstance(val, tuple) and len(val) == len(t_.elts) and all(isinstance(x, ast.Name) for x in t_.elts):
+                        env.update({x.id: y for x, y in zip(t_.elts, val)})
+                    else:
+                        raise _NA()
+                got = (ev(over["year"], env), ev(over["month"], env))
+                tot = 2019 * 12 + (m0 - 1) + step
+                want = (tot // 12, tot % 12 + 1)
+                if got != want and not wrong:
+                    wrong.append("start month %d + %d months -> (year, month) = %s, expected %s" % (m0, step, got, want))
+    except _NA:
+        return None
+    return wrong
 
 
 def rule_default_end(ctx):
